@@ -100,9 +100,16 @@ def check_sim_functions(ctx):
     for o in outs:
         uni.note(o.cond)
     mkey = 'enum:sim_measure_type'
-    if mkey not in uni.vars:
-        raise AnalysisError('%s: no case split on sim_measure_type' % f.where)
     measures = sorted(SIM_CLASSES) + ['OVERLAP']
+    if mkey not in uni.vars:
+        table = _table_driven(repo, f)
+        if table is None:
+            raise AnalysisError('%s: no case split on sim_measure_type' % f.where)
+        for m in measures:
+            e = table.get(m)
+            _check_sim_entry(ctx, repo, f, m, e, f.node)
+        _check_overlap_fn(ctx, repo)
+        return
     uni.vars[mkey]['values'] |= set(measures)
     for m in measures:
         hit = [o for o in outs if uni.eval(o.cond, {mkey: m})] if all(uni.vars_of(o.cond) <= {mkey} for o in outs) else None
@@ -111,32 +118,118 @@ def check_sim_functions(ctx):
         if not hit:
             ctx.check('R-VERIFY/sim-table', f, m, False, 'get_sim_function has no branch for %s' % m, f.node)
             continue
-        e = hit[0].stmt.value
-        if m == 'OVERLAP':
-            r = repo.lookup_name(f.module, e.id) if isinstance(e, ast.Name) else None
-            ok = getattr(r, 'name', None) == 'overlap'
-            got = U(e)
-        else:
-            cls, modname = SIM_CLASSES[m]
-            ok = False
-            got = U(e)
-            if isinstance(e, ast.Attribute) and e.attr == 'get_raw_score' and isinstance(e.value, ast.Call) \
-                    and isinstance(e.value.func, ast.Name) and not e.value.args and not e.value.keywords:
-                imp = f.module.imports.get(e.value.func.id)
-                ok = imp is not None and imp[0] == 'obj' and imp[2] == cls and imp[1].endswith('similarity_measure.' + modname)
-                got = '%s from %s' % (imp[2], imp[1]) if imp else got
-        ctx.check('R-VERIFY/sim-table', f, m, ok,
-                  'get_sim_function(%r) returns `%s`, not the %s measure' % (m, got, m), hit[0].stmt,
-                  sample='%s -> %s' % (m, got))
+        _check_sim_entry(ctx, repo, f, m, hit[0].stmt.value, hit[0].stmt)
+    _check_overlap_fn(ctx, repo)
+
+
+def _check_sim_entry(ctx, repo, f, m, e, where):
+    if e is None:
+        ctx.check('R-VERIFY/sim-table', f, m, False, 'get_sim_function has no entry for %s' % m, where)
+        return
+    if m == 'OVERLAP':
+        r = repo.lookup_name(f.module, e.id) if isinstance(e, ast.Name) else None
+        ok = getattr(r, 'name', None) == 'overlap'
+        got = U(e)
+    else:
+        cls, modname = SIM_CLASSES[m]
+        ok = False
+        got = U(e)
+        if isinstance(e, ast.Attribute) and e.attr == 'get_raw_score' and isinstance(e.value, ast.Call) \
+                and isinstance(e.value.func, ast.Name) and not e.value.args and not e.value.keywords:
+            imp = f.module.imports.get(e.value.func.id)
+            ok = imp is not None and imp[0] == 'obj' and imp[2] == cls and imp[1].endswith('similarity_measure.' + modname)
+            got = '%s from %s' % (imp[2], imp[1]) if imp else got
+    ctx.check('R-VERIFY/sim-table', f, m, ok,
+              'get_sim_function(%r) returns `%s`, not the %s measure' % (m, got, m), where,
+              sample='%s -> %s' % (m, got))
+
+
+def _table_driven(repo, f):
+    """get_sim_function written as a loop over a module-level table of (name, class) pairs: unroll it.
+    -> {measure: returned expression} or None"""
+    import copy
+    loops = [n for n in f.node.body if isinstance(n, ast.For)]
+    if len(loops) != 1 or not isinstance(loops[0].iter, ast.Name) or not isinstance(loops[0].target, ast.Tuple):
+        return None
+    lp = loops[0]
+    tbl = f.module.globals.get(lp.iter.id)
+    if not isinstance(tbl, (ast.Tuple, ast.List)):
+        return None
+    names = [x.id for x in lp.target.elts if isinstance(x, ast.Name)]
+    if len(names) != len(lp.target.elts):
+        return None
+    out = {}
+
+    def run_block(stmts, env, m):
+        for st in stmts:
+            if isinstance(st, ast.If):
+                t = subst_consts(st.test, env)
+                v = const_truth(t, m)
+                if v is None:
+                    return 'UNKNOWN'
+                r = run_block(st.body if v else st.orelse, env, m)
+                if r is not None:
+                    return r
+            elif isinstance(st, ast.Return):
+                return subst_consts(st.value, env)
+            else:
+                return 'UNKNOWN'
+        return None
+
+    def subst_consts(e, env):
+        class T(ast.NodeTransformer):
+            def visit_Name(s, n):
+                if n.id in env:
+                    return copy.deepcopy(env[n.id])
+                return n
+        return T().visit(copy.deepcopy(e))
+
+    def const_truth(t, m):
+        if isinstance(t, ast.Compare) and len(t.ops) == 1:
+            l, r, op = t.left, t.comparators[0], t.ops[0]
+            if isinstance(op, (ast.Eq, ast.NotEq)):
+                for a, b in ((l, r), (r, l)):
+                    if isinstance(a, ast.Name) and a.id == 'sim_measure_type' and isinstance(b, ast.Constant):
+                        return (b.value == m) == isinstance(op, ast.Eq)
+            if isinstance(op, (ast.Is, ast.IsNot)) and isinstance(r, ast.Constant) and r.value is None:
+                isnone = isinstance(l, ast.Constant) and l.value is None
+                if isinstance(l, (ast.Constant, ast.Name)):
+                    return isnone == isinstance(op, ast.Is)
+        return None
+    for m in sorted(SIM_CLASSES) + ['OVERLAP']:
+        for row in tbl.elts:
+            if not isinstance(row, (ast.Tuple, ast.List)) or len(row.elts) != len(names):
+                return None
+            env = dict(zip(names, row.elts))
+            r = run_block(lp.body, env, m)
+            if r == 'UNKNOWN':
+                return None
+            if r is not None:
+                out[m] = r
+                break
+    return out
+
+
+def _check_overlap_fn(ctx, repo):
     # overlap(): size of the intersection of the two token sets
     ov = repo.fn(SIMFUN, 'overlap')
     rets = [n for n in walk_own(ov.node) if isinstance(n, ast.Return)]
     ok = len(rets) == 1 and isinstance(rets[0].value, ast.Call) and call_name(rets[0].value) == 'len' \
-        and isinstance(rets[0].value.args[0], ast.Call) and call_name(rets[0].value.args[0]) == 'intersection'
+        and isinstance(rets[0].value.args[0], (ast.Call, ast.BinOp))
     if ok:
         inter = rets[0].value.args[0]
-        names = {U(inter.func.value), U(inter.args[0]) if inter.args else ''}
-        ok = names == set(ov.params[:2])
+        if isinstance(inter, ast.Call) and call_name(inter) == 'intersection' and inter.args:
+            a, b = inter.func.value, inter.args[0]
+        elif isinstance(inter, ast.BinOp) and isinstance(inter.op, ast.BitAnd):
+            a, b = inter.left, inter.right
+        else:
+            a = b = None
+        if a is None:
+            ok = False
+        else:
+            na = set(x.id for x in ast.walk(a) if isinstance(x, ast.Name)) & set(ov.params[:2])
+            nb = set(x.id for x in ast.walk(b) if isinstance(x, ast.Name)) & set(ov.params[:2])
+            ok = len(na) == 1 and len(nb) == 1 and na != nb
     ctx.check('R-VERIFY/sim-table', ov, 'overlap', ok,
               'overlap() does not return len(set1.intersection(set2)) of its two arguments', ov.node,
               sample='len(set1.intersection(set2))')
@@ -363,11 +456,23 @@ def check_worker(ctx, path, qual, kind):
             comp = None
             lits = []
             for e, pol, st in ps.conds:
-                e2 = fin(e)
-                cc = _is_comp_call(e2)
-                if cc is not None and pol:
-                    comp = (cc, st, e)
-                lits.append((e2, pol))
+                # decompose the test (not / and / or / chains) so that `if not comp(..): continue` and
+                # `if comp(..):` give the same literal with the same polarity
+                if any(isinstance(x, ast.IfExp) for x in ast.walk(e)):
+                    from .cand import _norm_select
+                    e = _norm_select(e)     # `a if a <= b else b` is min(a, b), not a branch
+                fm = to_formula(e, pol)
+                parts = [fm] if fm[0] != 'and' else fm[1]
+                for part in parts:
+                    if part[0] != 'lit':
+                        lits.append((fin(e), pol))
+                        continue
+                    _, atom, apol = part
+                    e2 = fin(atom)
+                    cc = _is_comp_call(e2)
+                    if cc is not None and apol:
+                        comp = (cc, st, atom)
+                    lits.append((e2, apol))
             # score appended on this path (if any)
             score_cells = []
             for call, st in ps.events:
@@ -394,7 +499,8 @@ def check_worker(ctx, path, qual, kind):
                     _check_score_expr(ctx, f, kind, key0, a0, loopvars, cst, raw_a0)
                     _check_candidate_row(ctx, f, view, key0, loop, loopvars, ps, fin, sink)
                 for sc in score_cells:
-                    if U(sc) != U(a0) and fail is None:
+                    from .cand import _norm_select as _ns
+                    if U(_ns(sc)) != U(_ns(a0)) and fail is None:
                         fail = ('R-VERIFY/score-cell', 'the score appended to the row is `%s` but the value compared '
                                 'against the threshold is `%s`' % (U(sc)[:100], U(a0)[:100]))
                 if len(score_cells) > 1 and fail is None:
@@ -438,7 +544,7 @@ def check_edit_window(ctx):
                 continue
             seen_txt.add(U(e))
             names = [x.id.split('@')[0] for x in ast.walk(e) if isinstance(x, ast.Name)]
-            if 'threshold' not in names or not pol:
+            if 'threshold' not in names:
                 continue
             # identify the L and R length atoms by side
             parts = [e.left] + list(e.comparators)
@@ -455,7 +561,7 @@ def check_edit_window(ctx):
             rsym = re.sub(r'\s*[-+]\s*threshold', '', rt)
             ref = to_formula(parse_expr('(%s) - threshold <= (%s) <= (%s) + threshold' % (rsym, lsym, rsym)))
             uni = Universe()
-            w = uni.implies(ref, ('lit', e, True))
+            w = uni.implies(ref, ('lit', e, pol))
             ctx.check('R-VERIFY/length-window', f, 'window atom %d' % n, w is None,
                       'the length filter `%s` rejects pairs inside |len(l)-len(r)| <= threshold (e.g. %s): qualifying '
                       'pairs are lost' % (U(e)[:100], w), sink, sample=U(e)[:100])
